@@ -103,6 +103,12 @@ impl WorldB {
                 }
             }
         }
+        if self.stream_first {
+            obs.count("op.tick_server_streams_before_client_pass");
+            for j in 0..self.slots.len() {
+                self.gen_payload(j, true, 9, obs);
+            }
+        }
         let mut ids = self.server.clients_id();
         ids.sort();
         for id in ids {
@@ -298,6 +304,13 @@ impl WorldB {
                 }
             }
             K_TICKCLIENT => self.tick_client(op.a as usize % ns, op.b, obs),
+            K_TICKSERVER if op.b == 2 => {
+                // an application that streams to every connected client right after advancing the clock and before the
+                // per-client pass (update, send, update_client): a legal order of the three calls
+                self.stream_first = true;
+                self.tick_server(op.a, false, obs);
+                self.stream_first = false;
+            }
             K_TICKSERVER => self.tick_server(op.a, op.b == 1, obs),
             K_DELIVER => self.deliver_from_pool(op.a as usize % ns, (op.b % 2) as usize, op.c as usize, op.d % 2 == 1, obs),
             K_DROP => {
